@@ -59,7 +59,13 @@ SETTINGS = [None, None, None,
             {"RELATIVE_BASE": [1, 1, 1, 0, 0, 0, 0], "PREFER_DATES_FROM": "past"}, {"RELATIVE_BASE": [9999, 12, 31, 23, 0, 0, 0], "PREFER_DATES_FROM": "future"},
             {"PREFER_DATES_FROM": "future"}, {"PREFER_DAY_OF_MONTH": "last", "PREFER_MONTH_OF_YEAR": "first"}, {"TIMEZONE": "UTC+3", "TO_TIMEZONE": "EST"},
             {"RETURN_AS_TIMEZONE_AWARE": True}, {"STRICT_PARSING": True}, {"REQUIRE_PARTS": ["year"]}, {"RETURN_TIME_AS_PERIOD": True},
-            {"DATE_ORDER": "DMY", "SKIP_TOKENS": ["de"], "CACHE_SIZE_LIMIT": 2}]
+            {"DATE_ORDER": "DMY", "SKIP_TOKENS": ["de"], "CACHE_SIZE_LIMIT": 2}, {"DATE_ORDER": "MDY"}, {"TIMEZONE": "local"},
+            {"PREFER_DATES_FROM": "current_period"}]
+# settings dicts that spell out default values: equal *effective* settings, different explicit keys (what a caller passed
+# explicitly matters, e.g. an explicit DATE_ORDER switches the locale's own order off)
+DEFAULT_EQUIV = [{}, {"DATE_ORDER": "MDY"}, {"PREFER_LOCALE_DATE_ORDER": True}, {"NORMALIZE": True}, {"SKIP_TOKENS": ["t"]},
+                 {"TIMEZONE": "local"}, {"PREFER_DATES_FROM": "current_period"}, {"STRICT_PARSING": False},
+                 {"DATE_ORDER": "MDY", "NORMALIZE": True}, {"RETURN_TIME_AS_PERIOD": False}, {"CACHE_SIZE_LIMIT": 1000}]
 BAD_SETTINGS = [{"FOO": 1}, {"DATE_ORDER": "XYZ"}, {"PARSERS": ["x"]}, {"TIMEZONE": 5}, {"REQUIRE_PARTS": ["day", "day"]}, {"TIMEZONE": "Mars/Olympus"}]
 FORMATS = [None, None, None, ["%d-%m-%Y"], ["%m/%d/%y"], ["%B %Y"], ["%Y"]]
 CAL_STRINGS = ["1394/06/26", "26 شهریور 1394", "جمعه سی ام اسفند ۱۳۸۷", "1390-13-45", "x"]
@@ -395,13 +401,15 @@ def histories(draw, maxlen):
     return {"history": h}
 
 
-PROBE_STRINGS = ["yesterday", "2 days ago", "02-03-2016", "10/11/12", "27 Haziran 1981 de", "t 12 jan 2020", "March 2015", "Monday",
+PROBE_STRINGS = ["yesterday", "2 days ago", "02-03-2016", "01/02/2020", "02-03-2016", "10/11/12", "27 Haziran 1981 de", "t 12 jan 2020", "March 2015", "Monday",
                  "12 janvier 2020", "hier", "tomorrow", "14:05", "sept 2015", "12 Ocak 2020", "in 3 weeks", "1 day ago 2 PM"]
 
 
 def _variant(draw, sd):
     """a settings dict equal to sd, or differing from it in exactly one key, or unrelated"""
-    k = draw(st.integers(0, 5))
+    k = draw(st.integers(0, 6))
+    if k == 6 or (sd in DEFAULT_EQUIV and k >= 4):
+        return copy.deepcopy(draw(st.sampled_from(DEFAULT_EQUIV)))
     if k <= 1:
         return copy.deepcopy(sd)
     if k <= 3:
@@ -421,7 +429,7 @@ def _variant(draw, sd):
 def triples(draw):
     """setup call, 1-2 interfering calls, probe call that repeats the setup or reuses its parser"""
     L1 = draw(st.sampled_from(LANGS[1:]))
-    S1 = draw(st.sampled_from(SETTINGS[2:]))
+    S1 = draw(st.sampled_from(SETTINGS[2:])) if draw(st.integers(0, 3)) else copy.deepcopy(draw(st.sampled_from(DEFAULT_EQUIV)))
     region = draw(st.sampled_from(REGIONS))
     s1 = draw(st.sampled_from(PROBE_STRINGS))
     use_instance = draw(st.booleans())
